@@ -420,7 +420,12 @@ func runC04(c *RuleCtx) {
 				}
 				isRes := func(x ast.Expr) bool {
 					id, ok := unparen(x).(*ast.Ident)
-					return ok && resObj != nil && g.F.Info().ObjectOf(id) == resObj
+					if !ok || resObj == nil {
+						return false
+					}
+					o := g.F.Info().ObjectOf(id)
+					// the variable itself or a plain copy of it (the parameter binding of an inlined helper)
+					return o == resObj || g.P.R(g.F).CopyRoot(o) == resObj
 				}
 				isC := func(x ast.Expr) bool { return g.P.R(g.F).Val(x).IsConst(verdictConst) }
 				if (isRes(be.X) && isC(be.Y)) || (isRes(be.Y) && isC(be.X)) {
